@@ -218,7 +218,7 @@ def run_c01(ck):
 
 # --------------------------------------------------------------------------------------- C02
 def _c02_runs(ck):
-    allg = '{"pair_adj", "pair_skip", "pair_basic", "range", "range_empty"}'
+    allg = '{"pair_adj", "pair_skip", "pair_dup", "pair_basic", "range", "range_empty"}'
     rng = '{"range", "range_empty"}'
     if ck.quick:
         return [("a", {"MaxM": 3, "MaxMAdj": 2, "Palette": "{1, 2, 3}", "NH": 4, "MaxLen": 3, "Rot": 1, "Grps": allg}),
@@ -234,7 +234,7 @@ def run_c02(ck):
         mc_cfg = ck.cfg_with("MC_HvChain.cfg", consts, name=f"MC_HvChain_{tag}.cfg")
         req = ["DecideRange", "DecideRangeEmpty"]
         if tag == "a":
-            req += ["DecidePairAdjacent", "DecidePairSkipping", "DecidePairBasic"]
+            req += ["DecidePairAdjacent", "DecidePairSkipping", "DecidePairDup", "DecidePairBasic"]
         _mc(ck, "MC_HvChain", mc_cfg, tag=f"mc_{tag}", required_actions=req)
         gen_cfg = ck.cfg_with("Gen_HvChain.cfg", consts, name=f"Gen_HvChain_{tag}.cfg")
         cases, _ = _gen(ck, "Gen_HvChain", gen_cfg, f"cases_{tag}.ndjson", f"gen_{tag}")
